@@ -398,7 +398,7 @@ func oneInput(c *mon.Case) {
 		if err == nil {
 			c.Violation(kind+"/over-limit-count-accepted/wrong-answer", "a declared count above the documented limit was accepted ("+mu.how+")", det())
 		}
-		if alloc > 1<<20 {
+		if alloc > 8<<20 { // (the process-wide allocation counter also sees the runtime's own buffers: 1.02 MiB was measured once in 8*10^6 inputs for a call that allocates nothing)
 			c.Violation(kind+"/over-limit-count-allocates/wrong-answer", fmt.Sprintf("%d bytes were allocated before/while rejecting a declared count above the documented limit (%s)", alloc, mu.how), det())
 		}
 	}
